@@ -244,11 +244,16 @@ fn restored_bisim(rep: &mut Report) {
     let mut steps = 0u64;
     for ver in [Ver::V4, Ver::V5] {
         for ex in &exports {
-            for sp in [true, false] {
+            for (sp, rm) in [(true, None), (false, None), (true, Some(2u16)), (false, Some(1u16))] {
+                // (the client's Receive Maximum makes the server count the resumed exchanges when it processes
+                // the CONNECT - entries that are dropped at adoption must not be among them)
+                if rm.is_some() && ver == Ver::V4 {
+                    continue;
+                }
                 n += 1;
                 let kinds2 = kinds.clone();
                 let ex2 = ex.clone();
-                let hist_head = format!("restore_packets({:?}) (kind 1/2 = PUBLISH QoS, 3 = PUBREL; id; version) into Server(Undetermined) and Server({ver:?}); recv CONNECT {ver:?} persistent; send CONNACK sp={sp}", ex.iter().map(|i| kinds[*i]).collect::<Vec<_>>());
+                let hist_head = format!("restore_packets({:?}) (kind 1/2 = PUBLISH QoS, 3 = PUBREL; id; version) into Server(Undetermined) and Server({ver:?}); recv CONNECT {ver:?} persistent (Receive Maximum {rm:?}); send CONNACK sp={sp}", ex.iter().map(|i| kinds[*i]).collect::<Vec<_>>());
                 let r = guarded(move || -> Result<u64, (String, String)> {
                     let mk = |k: (u8, u32, Ver)| -> GenericStorePacket<u16> {
                         let p: GenericPacket<u16> = if k.0 == 3 {
@@ -281,10 +286,13 @@ fn restored_bisim(rep: &mut Report) {
                         }
                         Ok(())
                     };
-                    let connect = rc::encode(&ConnProf::basic(false).ap(ver), 2);
+                    let connect = rc::encode(&ConnProf { rm, ..ConnProf::basic(false) }.ap(ver), 2);
                     let (lu, _) = u.recv_all(&connect);
                     let (lf, _) = f.recv_all(&connect);
                     cmp("recv CONNECT".into(), lu, lf, &u, &f)?;
+                    if u.vacancy() != f.vacancy() {
+                        return Err(("vacancy".into(), format!("after the CONNECT get_receive_maximum_vacancy_for_send() is {:?} on the auto-detecting server, {:?} on the fixed-version one", u.vacancy(), f.vacancy())));
+                    }
                     let ack = AckProf::basic(sp).ap(ver);
                     let lu = u.send(bridge::build::<u16>(&ack).ok().unwrap());
                     let lf = f.send(bridge::build::<u16>(&ack).ok().unwrap());
